@@ -142,8 +142,18 @@ def iter_files(
     """
     directory = Path(directory)
     if subset_files is not None:
+        # A symbolic link is not a Covered File, and naming it does not name
+        # the file that it points to: only its directory is resolved.
         subset_files = cast(
-            set[Path], {Path(file_).resolve() for file_ in subset_files}
+            set[Path],
+            {
+                (
+                    Path(file_).parent.resolve() / Path(file_).name
+                    if Path(file_).is_symlink()
+                    else Path(file_).resolve()
+                )
+                for file_ in subset_files
+            },
         )
 
     for root_str, dirs, files in os.walk(directory):
